@@ -167,7 +167,9 @@ def treeinfo_case(case):
 # ---- pre-productmd trees with add-on sections (the RHEL 6 shape) ----------------------------------------------------------
 _addon = st.fixed_dictionaries({"name": st.sampled_from(["High Availability", "Load Balancer", "Resilient Storage", "X", "Scalable File System"]),
                                 "repo_style": st.sampled_from(["id", "addons/id"]), "packages": st.booleans(), "identity": st.booleans(),
-                                "explicit_type": st.booleans(), "name_given": st.integers(0, 4).map(lambda i: i > 0)})
+                                "explicit_type": st.booleans(), "name_given": st.integers(0, 4).map(lambda i: i > 0),
+                                # the repository is the directory that holds repodata/, however the producer spelled it
+                                "repo_spelling": st.sampled_from(["", "", "/", "/repodata", "/repodata/"])})
 pre_addons_strategy = st.fixed_dictionaries({
     "family": st.sampled_from(["Red Hat Enterprise Linux", "Foo Linux", "CentOS"]), "version": st.sampled_from(["6.5", "6.0", "3.1", "12"]),
     "main": st.sampled_from(["Server", "Client", "Workstation", "ComputeNode"]), "main_section": st.sampled_from([None, "plain", "typed"]),
@@ -187,7 +189,7 @@ def pre_addons_text(case, explicit):
     for i in ids:
         a = case["addons"][i]
         repo = i if a["repo_style"] == "id" else "addons/" + i
-        out += ["[addon-%s]" % i, "repository = %s" % repo]
+        out += ["[addon-%s]" % i, "repository = %s%s" % (repo, a.get("repo_spelling", ""))]
         if a["name_given"]:
             out.append("name = %s" % a["name"])
         if a["packages"]:
@@ -226,7 +228,8 @@ def pre_addons_case(case):
         check(must("second-dump", again.dumps) == first, "conversion-not-idempotent[pre-productmd]", "%s: second dump differs" % label)
     d = diff(json.loads(json.dumps(snaps[0], default=list)), json.loads(json.dumps(snaps[1], default=list)))
     check(d is None, "explicit-kind-changes-tree", lambda: "the same tree with the kinds of its sections spelled out: %s" % d)
-    return {"nontrivial": plain != typed, "labels": ["explicit-kind" if plain != typed else "no-explicit-kind", "%d-addons" % len(case["addons"])]}
+    return {"nontrivial": plain != typed, "labels": ["explicit-kind" if plain != typed else "no-explicit-kind", "%d-addons" % len(case["addons"])]
+            + sorted(set("repository-spelled:%s" % (a.get("repo_spelling") or "plain") for a in case["addons"].values()))}
 
 
 def fixture_cases():
